@@ -19,9 +19,10 @@ CLAIMED = {
         text="Coq theorems (axiom-free) about a hand model of f2s/ChunkOutput/next_value/_geqdsk.write layout: the reader's regular "
              "expression recovers every value of any list of blocks of any length and chunk phase, the whole file body token stream equals "
              "the reader's expected sequence, abutting e16.9 fields are read back. The model is compared character-for-character with the "
-             "real writer and value-for-value with the real reader on every run; write->read and read_geqdsk's axis mapping are checked on the implementation.",
+             "real writer and value-for-value with the real reader on every run; write->read and read_geqdsk's axis mapping are checked on the implementation. "
+             "The HEADER line is modelled too (format string; str.split and int of the reader): for any label / date / shot / time fields and nx, ny < 1000 the reader recovers nx and ny (C17_header_roundtrip), compared with the writer's first line on every run.",
         note="Trusted: Coq kernel; printf %1.9E rounding and Python float()/int() parsing (checked against the decimal module each run); "
-             "header line outside the model (oracle only); guard nx,ny<=999, 2-digit exponents, <=9999 boundary points.",
+             "the writer's pre-processing of label / shot / time is repeated in the harness; guard nx,ny<=999 (proved necessary: the fields abut from 1000 on), 2-digit exponents, <=9999 boundary points.",
         technique="Coq proof (induction over token lists) on a hand model + correspondence by vm_compute",
         design="6/C17"),
     "C20": dict(
